@@ -50,7 +50,13 @@ def sweep_specs():
             dict(n_origins=2, max_connections=1, max_keepalive=None, keepalive_expiry=None, n_callers=3, reqs=2,
                  pool_timeout=0.02, pool_timeout_callers=[1], family="F4"),
             dict(n_origins=1, max_connections=1, max_keepalive=1, keepalive_expiry=None, n_callers=3, reqs=2,
-                 pool_timeout=0.015, pool_timeout_callers=[0, 2], family="F4")]):
+                 pool_timeout=0.015, pool_timeout_callers=[0, 2], family="F4"),
+            # another thread closes the pool while a request's assignment pass - which has connections to remove (expired,
+            # surplus) - is pre-empted for longer than the closer sleeps
+            dict(n_origins=2, max_connections=10, max_keepalive=1, keepalive_expiry=0.0, n_callers=2, reqs=3, closer=0.025,
+                 family="F5"),
+            dict(n_origins=2, max_connections=10, max_keepalive=0, keepalive_expiry=None, n_callers=2, reqs=3, closer=0.015,
+                 family="F5")]):
         r = random.Random(1000 + i)
         base = dict(proxy=None, fault_ops=[], latency="zero", think=0.0, pool_timeout=None, resp_delay=0.01,
                     behaviours=["read", "head-only", "read", "partial"], server_modes=False, early=False, max_body=3000,
@@ -65,7 +71,7 @@ def sweep_specs():
 
 
 def gen_thread_spec(r: random.Random) -> dict:
-    fam = r.choice(["F1", "F2", "F2", "F3", "F4"])
+    fam = r.choice(["F1", "F2", "F2", "F3", "F4", "F5"])
     n_threads = r.randint(2, 4)
     base = dict(n_callers=n_threads, reqs=r.randint(2, 3), proxy=None, fault_ops=[], latency=r.choice(["zero", "zero", "mixed"]),
                 think=r.choice([0.0, 0.0, 0.05]), pool_timeout=None, resp_delay=r.choice([0.0, 0.0, 0.01]),
@@ -76,6 +82,13 @@ def gen_thread_spec(r: random.Random) -> dict:
     elif fam == "F2":
         base.update(proto=r.choice(["h1", "h1", "h1tls"]), n_origins=r.choice([1, 2, 3]), max_connections=r.choice([1, 2]),
                     max_keepalive=r.choice([0, 1, 2, None]), keepalive_expiry=r.choice([None, 0.0, 0.02, 1.0]))
+    elif fam == "F5":
+        # one more thread closes the pool while the others are using it (a shutdown). Limits are generous, nobody queues.
+        # What the requests end with is open (success, or a documented error because their connection was closed under
+        # them) - but no internal error may reach a caller, nothing may deadlock, and nothing stays counted
+        base.update(proto=r.choice(["h1", "h1", "h1tls"]), n_origins=r.choice([1, 2]), max_connections=10,
+                    max_keepalive=r.choice([0, 1, None]), keepalive_expiry=r.choice([None, 0.0, 0.02]), resp_delay=r.choice([0.0, 0.01]),
+                    closer=r.choice([0.0, 0.001, 0.005, 0.011, 0.02, 0.05]))
     elif fam == "F4":
         # some callers queue with a pool timeout, others without; the scheduler may let a timeout expire while the
         # other threads are in the middle of a step (Sched.p_jump): timeout-versus-hand-over races
@@ -146,7 +159,10 @@ def run_case(case):
                 ob = LimitObserver(wl)
                 wl.net.observers.append(ob)
                 box.update(wl=wl, ob=ob)
-                return {f"t{c}": (lambda c=c: run_sync(wl.caller(c))) for c in range(spec["n_callers"])}
+                threads = {f"t{c}": (lambda c=c: run_sync(wl.caller(c))) for c in range(spec["n_callers"])}
+                if spec.get("closer") is not None:
+                    threads["closer"] = lambda: (s.sleep(spec["closer"]), wl.pool.close())
+                return threads
 
             s, outs, shim = run_threaded(setup, seed=sched["seed"] ^ spec["seed"], strategy=sched["strategy"], p=sched.get("p", 0.1),
                                          depth=sched.get("depth", 2), lines=True, est_steps=3000,
@@ -188,6 +204,8 @@ def run_case(case):
                 elif (type(rec.get("exc")).__name__ == "PoolTimeout" and rec.get("pool_timeout") is not None
                       and rec.get("t1", 0) - rec["t0"] >= rec["pool_timeout"] - 1e-9):
                     cnt["pool_timeouts"] += 1   # asked for, and the time had passed
+                elif fam == "F5" and rec.get("exc") is not None and documented(rec["exc"]):
+                    cnt["requests_failed_by_pool_close"] = cnt.get("requests_failed_by_pool_close", 0) + 1
                 else:
                     cnt["requests_failed"] += 1
                     exc = rec.get("exc")
@@ -198,6 +216,11 @@ def run_case(case):
             for kind, rec, msg in bad:
                 v(f"crosstalk:{kind}:{fam}", msg, dict(ctx, token=rec["token"]))
             for key, det in ob.viol:
+                if fam == "F5":
+                    # a pool that is closed forgets its connections, also the ones a request is still establishing: what is
+                    # open then is no longer "held by the pool" in any sense the limit speaks of
+                    cnt["limit_findings_after_pool_close_ignored"] = cnt.get("limit_findings_after_pool_close_ignored", 0) + 1
+                    continue
                 v(f"limit:{key}:{fam}", f"{det}", ctx)
             for name, a in wl.wire_anomalies():
                 if a["kind"].startswith("pipelined") or a["kind"] == "request-after-close":
@@ -242,7 +265,7 @@ def plan(tier, seed):
         cases.append({"specs": specs, "scheds": scheds, "seed": r.randrange(1 << 30)})
     specs = sweep_specs()
     n_chunks = 8 if tier == "quick" else 16
-    for spec in ([specs[0], specs[1], specs[4]] if tier == "quick" else specs):
+    for spec in ([specs[0], specs[1], specs[4], specs[6]] if tier == "quick" else specs):
         for chunk in range(n_chunks):
             cases.append({"kind": "sweep", "spec": spec, "chunk": chunk, "n_chunks": n_chunks,
                           "occs": [1, 2, 4] if tier == "quick" else [1, 2, 3, 4, 6, 9, 14],
